@@ -4,6 +4,7 @@ EXTENDS SSHMux, Json
 
 AllConfigs == {"empty", "in", "out", "both", "reopen"}
 HoldConfigs == {"in", "out", "both"}
+BurstConfigs == {"empty", "in", "out"}
 
 FinalInfo == LET f == Final(S) IN
   [objs |-> [o \in 1 .. NObj(S) |-> [held |-> S.obj[o].held, inq |-> S.obj[o].inq, closed |-> f.obj[o].closed,
